@@ -256,6 +256,10 @@ fn c07(tier: Tier) -> Vec<SeqCfg> {
         b"0",
         b"1",
         b"007",
+        // leading zeros: text length says nothing about magnitude (20, 21 and 40 characters)
+        b"00000000000000000041",
+        b"000000000000000000041",
+        b"0000000000000000000000000000000000000009",
         b"18446744073709551614",
         b"18446744073709551615",
         b"18446744073709551616",
